@@ -24,3 +24,10 @@ def deep_diff(a, b, ignore_prefix="_vmon"):
         if not same:
             out.append(k)
     return out
+
+
+def clone(a):
+    """the harness's own deep copy of an Atoms object. Atoms.copy() is code under observation: the harness never relies
+    on it for its own bookkeeping (snapshots, scratch objects)."""
+    import copy
+    return copy.deepcopy(a)
